@@ -409,6 +409,18 @@ End Tick.
 Lemma range_nil a b : b < a -> range a b = [].
 Proof. intros H. unfold range. replace (b + 1 - a) with 0 by lia. reflexivity. Qed.
 
+(* the pure loop body of C05 (every numbered RPC call succeeds) is what dl_body computes on the empty call list *)
+Lemma dl_body_nil cfg ch from to lb fin :
+  dl_body cfg ch from to lb fin [] =
+  (loop_top (fst (fst (fst (dl_body0 cfg ch from to lb fin)))) (snd (fst (fst (dl_body0 cfg ch from to lb fin)))) lb
+            (snd (fst (dl_body0 cfg ch from to lb fin))) [],
+   snd (dl_body0 cfg ch from to lb fin)).
+Proof.
+  destruct (dl_body_pure cfg ch from to lb fin []) as (c' & [Hsub _] & E).
+  { split; [intros []|cbn [mismatches max_retry_hash_mismatch]; apply Nat.le_0_l]. }
+  destruct c' as [|r c']; [exact E|]. destruct (Hsub r (or_introl eq_refl)).
+Qed.
+
 Section DlStep.
 Variable cfg : config.
 Variable ch : chain.
@@ -419,12 +431,12 @@ Variable B : N.
 Variable LIM : N.
 Hypothesis HLIM : LIM < M64.
 
-(* the download is behind... the node: lb < from.  Nothing is sent, the cursor stays *)
+(* the download is behind the node: lb < from.  Nothing is sent, the cursor stays *)
 Lemma dl_body_behind from to lb fin :
   lb < from -> fin < lb -> from + chunk <= to -> to + chunk < M64 ->
-  dl_body cfg ch from to lb fin = (loop_top from (to + chunk) lb true, []).
+  dl_body0 cfg ch from to lb fin = ((from, to + chunk, true), []).
 Proof.
-  intros H1 H2 H3 H4. unfold dl_body.
+  intros H1 H2 H3 H4. unfold dl_body0.
   assert (Hreach : (lb <=? to) = true) by (apply N.leb_le; lia). rewrite Hreach.
   rewrite get_events_ref, range_nil by lia. cbn [ref_blocks flat_map].
   assert (Hsafe : (lb <=? N.min lb fin) = false) by (apply N.leb_gt; lia). rewrite Hsafe.
@@ -435,13 +447,13 @@ Qed.
 (* extra facts about the normal regime from <= lb *)
 Lemma dl_body_facts from to lb fin :
   from <= lb -> from + chunk <= to -> lb + 1 + chunk < M64 -> to + chunk < M64 ->
-  let r := dl_body cfg ch from to lb fin in
+  let r := dl_body0 cfg ch from to lb fin in
   let lf := N.min lb fin in
   (forall b, In b (snd r) -> (b_fin b = true -> b_num b <= lf) /\ (b_events b = [] -> b_num b <= lf)) /\
-  (snd r = [] -> s_from (fst r) = from) /\
-  (snd r <> [] -> s_from (fst r) = List.last (map b_num (snd r)) 0 + 1).
+  (snd r = [] -> fst (fst (fst r)) = from) /\
+  (snd r <> [] -> fst (fst (fst r)) = List.last (map b_num (snd r)) 0 + 1).
 Proof.
-  intros Hfl Hft Hb1 Hb2. cbv zeta. unfold dl_body.
+  intros Hfl Hft Hb1 Hb2. cbv zeta. unfold dl_body0.
   set (lf := N.min lb fin).
   set (reach := lb <=? to).
   set (req := if reach then lb else to).
@@ -469,7 +481,7 @@ Proof.
     apply (HinR k ev0). exact H. }
   destruct (N.leb_spec req lf) as [Hsafe|Hunsafe].
   - (* safe zone *)
-    cbn [fst snd]. rewrite loop_top_from. rewrite (u64_small (req + 1)) by lia.
+    cbn [fst snd]. rewrite (u64_small (req + 1)) by lia.
     destruct blocks as [|b0 bl] eqn:Eb.
     + cbn [map app]. split; [|split; [discriminate|intros _; cbn [map List.last empty_block b_num]; reflexivity]].
       intros b [<-|[]]. apply (Hem req Hsafe). reflexivity.
@@ -486,29 +498,29 @@ Proof.
         -- intros E. apply map_eq_nil in E. congruence.
         -- intros _. rewrite (Hlastmk bs Hne). lia.
   - destruct blocks as [|b0 bl] eqn:Eb.
-    + destruct (N.leb_spec from lf) as [Hge|Hlt]; cbn [fst snd]; rewrite loop_top_from.
+    + destruct (N.leb_spec from lf) as [Hge|Hlt]; cbn [fst snd].
       * rewrite (u64_small (lf + 1)) by (unfold lf; lia). split; [|split; [discriminate|intros _; reflexivity]].
         intros b [<-|[]]. apply (Hem lf (N.le_refl lf)). reflexivity.
       * split; [intros b []|split; [reflexivity|congruence]].
     + set (bs := b0 :: bl) in *. assert (Hne : bs <> []) by discriminate. specialize (Hlastin Hne).
-      cbn [fst snd]. rewrite loop_top_from. rewrite (u64_small (last_num bs + 1)) by lia. split; [|split].
+      cbn [fst snd]. rewrite (u64_small (last_num bs + 1)) by lia. split; [|split].
       * intros b Hb. destruct (Hmk b Hb) as (H1 & H2 & _). split; [exact H1|intros E; congruence].
       * intros E. apply map_eq_nil in E. congruence.
       * intros _. rewrite (Hlastmk bs Hne). reflexivity.
 Qed.
 
 (* arithmetic part of the loop state that C06 carries (C05's Core without `from <= last + 1`, which a fork shorter than
-   the store breaks) *)
+   the store breaks); the call-outcome list stays empty *)
 Definition DArith (r : nat) (s : dl_state) : Prop :=
-  s_from s <= B + 1 /\
+  s_from s <= B + 1 /\ s_calls s = [] /\
   (s_phase s <> PInit -> s_from s + chunk <= s_to s /\ s_last s <= B /\ s_to s + N.of_nat r * chunk <= LIM).
 
 Lemma DArith_mono r s : DArith (S r) s -> DArith r s.
-Proof. intros [H1 H2]. split; [exact H1|]. intros Hp. specialize (H2 Hp). lia. Qed.
+Proof. intros (H1 & Hc & H2). split; [exact H1|]. split; [exact Hc|]. intros Hp. specialize (H2 Hp). lia. Qed.
 
-Lemma loop_top_phase f t l rc : s_phase (loop_top f t l rc) <> PInit.
+Lemma loop_top_phase f t l rc c : s_phase (loop_top f t l rc c) <> PInit.
 Proof. unfold loop_top. destruct ((l <? f) || (rc && (l <=? t))); cbn [s_phase]; discriminate. Qed.
-Lemma loop_top_to f t l rc : s_to (loop_top f t l rc) = t.
+Lemma loop_top_to f t l rc c : s_to (loop_top f t l rc c) = t.
 Proof. unfold loop_top. destruct ((l <? f) || (rc && (l <=? t))); reflexivity. Qed.
 
 (* the contract of one step *)
@@ -535,40 +547,44 @@ Lemma dl_step_contract r s t :
   DArith (S r) s -> poll_ok s t -> B + 1 + (N.of_nat r + 1) * chunk <= LIM ->
   DArith r (fst (dl_step cfg ch s t)) /\ StepOut s (fst (dl_step cfg ch s t)) t (snd (dl_step cfg ch s t)).
 Proof.
-  intros [Hf HA] Hok Hbud. unfold dl_step.
+  intros (Hf & Hcalls & HA) Hok Hbud. unfold dl_step. rewrite Hcalls.
   assert (Hbig : B + 1 + chunk <= LIM) by lia.
   destruct (s_phase s) eqn:Eph.
   - (* PInit *)
     destruct (t_err t) eqn:Eerr; cbn [orb fst snd].
-    { split; [split; [exact Hf|rewrite Eph; congruence]|apply StepOut_nil; reflexivity]. }
+    { split; [split; [exact Hf|split; [exact Hcalls|rewrite Eph; congruence]]|apply StepOut_nil; reflexivity]. }
     destruct (N.ltb_spec 0 (t_tip t)) as [Hpos|Hz]; cbn [negb fst snd].
-    2:{ split; [split; [exact Hf|rewrite Eph; congruence]|apply StepOut_nil; reflexivity]. }
+    2:{ split; [split; [exact Hf|split; [exact Hcalls|rewrite Eph; congruence]]|apply StepOut_nil; reflexivity]. }
     destruct (Hok Eerr) as [HB _].
     rewrite (u64_small (s_from s + chunk)) by lia.
     split; [|apply StepOut_nil; apply loop_top_from].
-    split; [rewrite loop_top_from; exact Hf|]. intros _. rewrite loop_top_from, loop_top_to, loop_top_last. lia.
+    split; [rewrite loop_top_from; exact Hf|]. split; [apply loop_top_calls|].
+    intros _. rewrite loop_top_from, loop_top_to, loop_top_last. lia.
   - (* PWait *)
     assert (Hp : PWait <> PInit) by discriminate. specialize (HA Hp) as (H1 & H2 & H3).
     destruct (t_err t) eqn:Eerr; cbn [orb fst snd].
-    { split; [split; [exact Hf|intros _; lia]|apply StepOut_nil; reflexivity]. }
+    { split; [split; [exact Hf|split; [exact Hcalls|intros _; lia]]|apply StepOut_nil; reflexivity]. }
     destruct (N.ltb_spec (s_last s) (t_tip t)) as [Hgt|Hle]; cbn [negb fst snd].
-    2:{ split; [split; [exact Hf|intros _; lia]|apply StepOut_nil; reflexivity]. }
+    2:{ split; [split; [exact Hf|split; [exact Hcalls|intros _; lia]]|apply StepOut_nil; reflexivity]. }
     destruct (Hok Eerr) as [HB _].
     assert (Hdead : u64_sub (s_from s) (s_to s) <? chunk = false).
     { apply N.ltb_ge. unfold u64_sub. rewrite N.mod_small by lia. lia. }
     rewrite Hdead. split; [|apply StepOut_nil; reflexivity].
-    split; [exact Hf|]. intros _. cbn [s_from s_to s_last]. lia.
+    split; [exact Hf|]. split; [reflexivity|]. intros _. cbn [s_from s_to s_last]. lia.
   - (* PFin *)
     assert (Hp : PFin <> PInit) by discriminate. specialize (HA Hp) as (H1 & H2 & H3).
     destruct (t_err t) eqn:Eerr; cbn [fst snd].
     { split; [|apply StepOut_nil; apply loop_top_from].
-      split; [rewrite loop_top_from; exact Hf|]. intros _. rewrite loop_top_from, loop_top_to, loop_top_last. lia. }
+      split; [rewrite loop_top_from; exact Hf|]. split; [apply loop_top_calls|].
+      intros _. rewrite loop_top_from, loop_top_to, loop_top_last. lia. }
     destruct (Hok Eerr) as [HB Hbeh]. specialize (Hbeh Eph).
+    rewrite dl_body_nil. cbn [fst snd].
     destruct (N.lt_ge_cases (s_last s) (s_from s)) as [Hbehind|Hnormal].
     + (* behind *)
       rewrite dl_body_behind by (try apply Hbeh; lia). cbn [fst snd].
       split; [|apply StepOut_nil; apply loop_top_from].
-      split; [rewrite loop_top_from; exact Hf|]. intros _. rewrite loop_top_from, loop_top_to, loop_top_last. lia.
+      split; [rewrite loop_top_from; exact Hf|]. split; [apply loop_top_calls|].
+      intros _. rewrite loop_top_from, loop_top_to, loop_top_last. lia.
     + (* normal regime: C05's body_shape with an empty accumulator and from0 := from *)
       assert (HC : Core cfg ch (s_from s) B LIM (S r) (s_from s) (s_to s) (s_last s) []).
       { constructor; try lia; try (intros b []); try (intros k Hk; lia); constructor. }
@@ -577,9 +593,10 @@ Proof.
       destruct (dl_body_facts (s_from s) (s_to s) (s_last s) (t_fin t) Hnormal H1 ltac:(lia) ltac:(lia))
         as (F1 & F2 & F3).
       cbn [app] in HC'. destruct HC' as [C1 C2 C3 C4 C5 C6 C7 C8 C9].
-      rewrite Efst in F2, F3 |- *. rewrite loop_top_from in F2, F3.
+      rewrite Efst in F2, F3 |- *. cbn [fst snd] in F2, F3 |- *.
       split.
-      * split; [rewrite loop_top_from; lia|]. intros _. rewrite loop_top_from, loop_top_to, loop_top_last. lia.
+      * split; [rewrite loop_top_from; lia|]. split; [apply loop_top_calls|].
+        intros _. rewrite loop_top_from, loop_top_to, loop_top_last. lia.
       * constructor; rewrite ?loop_top_from.
         -- exact C7.
         -- intros b Hb. specialize (C6 b Hb). destruct (C9 b Hb). lia.
@@ -764,9 +781,10 @@ Lemma B_small r s : SInv r s -> B + 1 < M64.
 Proof. intros H. pose proof (i_budget _ _ H). nia. Qed.
 
 (* a freshly (re)started download *)
-Lemma DArith_init r l : l <= B -> B + 1 < M64 -> DArith cfg B LIM r (dl_init (sync_from l)).
+Lemma DArith_init r l : l <= B -> B + 1 < M64 -> DArith cfg B LIM r (dl_init (sync_from l) []).
 Proof.
-  intros H1 H2. split; cbn [dl_init s_from s_phase]; [rewrite sync_from_small by assumption; lia|congruence].
+  intros H1 H2. split; cbn [dl_init s_from s_phase s_calls]; [rewrite sync_from_small by assumption; lia|].
+  split; [reflexivity|congruence].
 Qed.
 
 (* ---- world moves ---- *)
@@ -897,7 +915,7 @@ Lemma reset_inv r s d st :
   (forall p, In p st -> In (p_num p, p_hash p) (t_mem d) \/ (p_num p <= y_final s /\ v_hash (cur s) (p_num p) = p_hash p)) ->
   forall rew,
   SInv r {| y_world := y_world s; y_final := y_final s; y_store := st; y_det := d;
-            y_dl := dl_init (sync_from (lp st)); y_chan := []; y_rewinds := rew |}.
+            y_dl := dl_init (sync_from (lp st)) []; y_chan := []; y_rewinds := rew |}.
 Proof.
   intros H Hd Hst Hsub Hcov rew. pose proof (B_small _ _ H) as HBs.
   assert (Hlp : lp st <= B) by (pose proof (seq_ok_last_bounds _ _ Hst); unfold lp; lia).
@@ -1274,23 +1292,26 @@ Proof.
   rewrite E. reflexivity.
 Qed.
 
-Lemma dl_step_node_logs w d t : (s_phase d = PFin -> s_last d <= w_head w) ->
-  dl_step cfg (node_logs w) d t = dl_step cfg (v_logs (w_ver w)) d t.
+Lemma dl_body0_node_logs w from to lb fin : lb <= w_head w ->
+  dl_body0 cfg (node_logs w) from to lb fin = dl_body0 cfg (v_logs (w_ver w)) from to lb fin.
 Proof.
-  intros Hl. unfold dl_step. destruct (s_phase d); try reflexivity. destruct (t_err t); [reflexivity|].
-  specialize (Hl eq_refl). unfold dl_body.
-  rewrite get_events_node_logs; [reflexivity|]. destruct (N.leb_spec (s_last d) (s_to d)); lia.
+  intros Hl. unfold dl_body0. rewrite get_events_node_logs; [reflexivity|]. destruct (N.leb_spec lb to); lia.
 Qed.
 
-Lemma dl_step_last ch d t : s_last (fst (dl_step cfg ch d t)) = s_last d \/ s_last (fst (dl_step cfg ch d t)) = t_tip t.
+Lemma dl_step_node_logs w d t : s_calls d = [] -> (s_phase d = PFin -> s_last d <= w_head w) ->
+  dl_step cfg (node_logs w) d t = dl_step cfg (v_logs (w_ver w)) d t.
 Proof.
-  unfold dl_step. destruct (s_phase d).
+  intros Hc Hl. unfold dl_step. rewrite Hc. destruct (s_phase d); try reflexivity. destruct (t_err t); [reflexivity|].
+  specialize (Hl eq_refl). rewrite !dl_body_nil. rewrite dl_body0_node_logs by exact Hl. reflexivity.
+Qed.
+
+Lemma dl_step_last ch d t : s_calls d = [] ->
+  s_last (fst (dl_step cfg ch d t)) = s_last d \/ s_last (fst (dl_step cfg ch d t)) = t_tip t.
+Proof.
+  intros Hc. unfold dl_step. rewrite Hc. destruct (s_phase d).
   - destruct (t_err t || negb (0 <? t_tip t)); cbn [fst]; [left; reflexivity|right; apply loop_top_last].
   - destruct (t_err t || negb (s_last d <? t_tip t)); cbn [fst s_last]; [left; reflexivity|right; reflexivity].
-  - destruct (t_err t); cbn [fst]; [left; apply loop_top_last|]. left. unfold dl_body.
-    repeat match goal with |- context [if ?c then _ else _] => destruct c end;
-      repeat match goal with |- context [match ?x with [] => _ | _ :: _ => _ end] => destruct x end;
-      cbn [fst]; apply loop_top_last.
+  - destruct (t_err t); cbn [fst]; [left; apply loop_top_last|]. left. rewrite dl_body_nil. cbn [fst]. apply loop_top_last.
 Qed.
 
 Definition pbv (v : version) (b : dblock) : pblock := {| p_num := b_num b; p_hash := v_hash v (b_num b); p_evs := b_events b |}.
@@ -1313,10 +1334,10 @@ Fixpoint ticks_of (s : sys) (es : list event) : list tick :=
 Lemma calm_quiet s e : calm_ev s e -> quiet_ev s e.
 Proof. destruct e; cbn; tauto. Qed.
 
-Lemma dl_step_last_le ch d t H : (s_phase d <> PInit -> s_last d <= H) -> t_tip t <= H ->
+Lemma dl_step_last_le ch d t H : s_calls d = [] -> (s_phase d <> PInit -> s_last d <= H) -> t_tip t <= H ->
   s_phase (fst (dl_step cfg ch d t)) <> PInit -> s_last (fst (dl_step cfg ch d t)) <= H.
 Proof.
-  intros Hl Ht Hp. destruct (dl_step_last ch d t) as [E|E]; [|rewrite E; exact Ht].
+  intros Hc Hl Ht Hp. destruct (dl_step_last ch d t Hc) as [E|E]; [|rewrite E; exact Ht].
   destruct (s_phase d) eqn:Ep; [|rewrite E; apply Hl; congruence|rewrite E; apply Hl; congruence].
   unfold dl_step in *. rewrite Ep in *. destruct (t_err t || negb (0 <? t_tip t)); cbn [fst] in *; [congruence|].
   rewrite loop_top_last in *. lia.
@@ -1364,7 +1385,7 @@ Proof.
       assert (HVw : w_ver (y_world s) = V) by exact HV.
       set (t := poll_tick (y_world s) err) in *.
       assert (Hstep : dl_step cfg (node_logs (y_world s)) (y_dl s) t = dl_step cfg (v_logs V) (y_dl s) t).
-      { rewrite <- HVw. apply dl_step_node_logs. intros Hp. apply Hlast. congruence. }
+      { rewrite <- HVw. apply dl_step_node_logs; [apply (i_arith _ _ HSI)|]. intros Hp. apply Hlast. congruence. }
       assert (Hrun : dl_run cfg (v_logs V) d0 (acc ++ [t]) =
                      (fst (dl_step cfg (v_logs V) (y_dl s) t),
                       snd (dl_run cfg (v_logs V) d0 acc) ++ snd (dl_step cfg (v_logs V) (y_dl s) t))).
@@ -1373,7 +1394,8 @@ Proof.
       assert (G1 : cur (do_poll cfg s err) = V) by exact HV.
       assert (G2 : s_phase (y_dl (do_poll cfg s err)) <> PInit ->
                    s_last (y_dl (do_poll cfg s err)) <= w_head (y_world (do_poll cfg s err))).
-      { unfold do_poll. cbn [y_dl y_world]. apply dl_step_last_le; [exact Hlast|]. unfold t. cbn [poll_tick t_tip]. lia. }
+      { unfold do_poll. cbn [y_dl y_world]. apply dl_step_last_le; [apply (i_arith _ _ HSI)|exact Hlast|].
+        unfold t. cbn [poll_tick t_tip]. lia. }
       assert (G3 : y_dl (do_poll cfg s err) = fst (dl_run cfg (v_logs V) d0 (acc ++ [t]))).
       { unfold do_poll. cbn [y_dl]. fold t. rewrite Hstep, Hrun. reflexivity. }
       assert (G4 : all_blocks (do_poll cfg s err) = st0 ++ map (pbv V) (snd (dl_run cfg (v_logs V) d0 (acc ++ [t])))).
@@ -1421,16 +1443,16 @@ Qed.
 (* the statement for a download that has just been (re)started *)
 Lemma calm_run_proof r s es :
   Settled (polls es + r) s -> Tight s ->
-  y_dl s = dl_init (sync_from (lp (y_store s))) -> y_chan s = [] ->
+  y_dl s = dl_init (sync_from (lp (y_store s))) [] -> y_chan s = [] ->
   trace_ok s es -> calm_trace s es ->
   let V := cur s in
-  let out := dl_run cfg (v_logs V) (dl_init (sync_from (lp (y_store s)))) (ticks_of s es) in
+  let out := dl_run cfg (v_logs V) (dl_init (sync_from (lp (y_store s))) []) (ticks_of s es) in
   y_dl (run cfg s es) = fst out /\
   all_blocks (run cfg s es) = y_store s ++ map (pbv V) (snd out) /\
   y_rewinds (run cfg s es) = y_rewinds s /\ Settled r (run cfg s es).
 Proof.
   intros HS HT Hdl Hch Hok Hcalm V out.
-  destruct (calm_run_gen V (dl_init (sync_from (lp (y_store s)))) (y_store s) es r s [] HS HT eq_refl) as (R1 & R2 & R3 & R4 & _);
+  destruct (calm_run_gen V (dl_init (sync_from (lp (y_store s))) []) (y_store s) es r s [] HS HT eq_refl) as (R1 & R2 & R3 & R4 & _);
     try assumption.
   - rewrite Hdl. cbn [dl_init s_phase]. congruence.
   - unfold all_blocks. rewrite Hch. reflexivity.
@@ -1485,21 +1507,22 @@ Qed.
 
 Lemma converge_progress_proof r s es pre post k B0 :
   Settled (polls es + r) s -> Tight s ->
-  y_dl s = dl_init (sync_from (lp (y_store s))) -> y_chan s = [] ->
+  y_dl s = dl_init (sync_from (lp (y_store s))) [] -> y_chan s = [] ->
   trace_ok s es -> calm_trace s es ->
   ticks_of s es = pre ++ post ->
   let from0 := sync_from (lp (y_store s)) in
   let ch := v_logs (cur s) in
   B0 + 1 + (N.of_nat (length (pre ++ post)) + 1) * c_chunk cfg < M64 ->
   tips_ok B0 from0 (pre ++ post) ->
-  rising k (s_last (fst (dl_run cfg ch (dl_init from0) pre))) post ->
-  2 * (k + 1 - s_from (fst (dl_run cfg ch (dl_init from0) pre))) + 3 <= N.of_nat (length post) ->
+  rising k (s_last (fst (dl_run cfg ch (dl_init from0 []) pre))) post ->
+  2 * (k + 1 - s_from (fst (dl_run cfg ch (dl_init from0 []) pre))) + 3 <= N.of_nat (length post) ->
   k <= lp (all_blocks (run cfg s es)) /\ y_rewinds (run cfg s es) = y_rewinds s.
 Proof.
   intros HS HT Hdl Hch Hok Hcalm Hticks from0 ch Hlim Htips Hrise Hlen.
   destruct (calm_run_proof r s es HS HT Hdl Hch Hok Hcalm) as (R1 & _ & R3 & R4). cbv zeta in R1.
   rewrite Hticks in R1. fold from0 in R1. fold ch in R1.
-  pose proof (download_progress_proof cfg ch from0 B0 pre post k Hchunk Hlim Htips Hrise Hlen) as Hp.
+  assert (Hcok : calls_ok []) by (split; [intros []|cbn [mismatches max_retry_hash_mismatch]; apply Nat.le_0_l]).
+  pose proof (download_progress_proof cfg ch from0 B0 [] pre post k Hchunk Hcok Hlim Htips Hrise Hlen) as Hp.
   rewrite <- R1 in Hp. rewrite (i_cursor _ _ (proj1 R4)) in Hp. split; [lia|exact R3].
 Qed.
 End Sys.
